@@ -10,4 +10,5 @@ for m in spec/*.tla; do
   if grep -q "\*\*\* Errors" .work/sany_$b.log; then echo "SANY errors in $b"; cat .work/sany_$b.log; exit 1; fi
 done
 PYTHONPATH=harness /venv/bin/python -c "import geo; import sys; t=geo.geotable_tla(); sys.exit(0 if t==open('spec/GeoTable.tla').read() else 1)" || { echo "GeoTable.tla is stale"; exit 1; }
+./vcheck selftest || exit 1
 echo "setup ok"
